@@ -230,6 +230,16 @@ var fixedSets = []func() *routeSet{
 	},
 }
 
+// mixSeed scrambles the seed before it reaches hx.NewRand: NewRand's state is seed*G with G also the
+// splitmix increment, so the streams of two nearby seeds are the same sequence shifted by (s1-s2)
+// draws and re-synchronise after a few variable-length choices. After scrambling the shift is huge.
+func mixSeed(z uint64) uint64 {
+	z += 0x9E3779B97F4A7C15
+	z = (z ^ (z >> 30)) * 0xBF58476D1CE4E5B9
+	z = (z ^ (z >> 27)) * 0x94D049BB133111EB
+	return z ^ (z >> 31)
+}
+
 func shuffle[T any](r *hx.Rand, xs []T) {
 	for i := len(xs) - 1; i > 0; i-- {
 		j := r.Intn(i + 1)
@@ -256,7 +266,7 @@ func main() {
 	args := hx.Args()
 	out, tier := args["out"], args["tier"]
 	shards := hx.Atoi(args["shards"], 16)
-	rnd := hx.NewRand(hx.Seed() ^ 0xC16)
+	rnd := hx.NewRand(mixSeed(hx.Seed() ^ 0xC16))
 	runtime.GOMAXPROCS(1)
 	debug.SetGCPercent(-1)
 
